@@ -144,6 +144,31 @@ var scaffolds = map[string][]Call{
 	"scheme-oauth2": with([]Call{C("OAuth2Security", S("s2"), F(hole))}, baseHTTP()...),
 }
 
+// extraContexts are scaffolds used by the dangling family only (not enumerated at depth 1..3):
+// designs in which a security requirement made of schemes a (basic auth) and k (API key) is
+// valid at method, service and API level, because the method payload carries the credentials
+// and a method-level requirement keeps the design valid while the hole is empty.
+var extraContexts = []string{"method+auth", "service+auth", "api+auth"}
+
+func payloadAuth2() Call {
+	return C("Payload", F(with(attrAB(), C("Username", S("user"), DT("String")), C("Password", S("pass"), DT("String")),
+		C("APIKey", S("k"), S("key"), DT("String")))...))
+}
+
+func authMethod(inMethod ...Call) Call {
+	body := []Call{payloadAuth2(), C("Result", UT("RT")), C("Error", S("a"))}
+	body = append(body, inMethod...)
+	body = append(body, C("Security", S("a"), S("k")), httpGET())
+	return method(body...)
+}
+
+func init() {
+	apiKey := C("APIKeySecurity", S("k"))
+	scaffolds["method+auth"] = []Call{apiKey, C("Service", S("s"), F(authMethod(hole)))}
+	scaffolds["service+auth"] = []Call{apiKey, C("Service", S("s"), F(hole, authMethod()))}
+	scaffolds["api+auth"] = []Call{apiKey, C("API", S("api"), F(hole)), C("Service", S("s"), F(authMethod()))}
+}
+
 // relevantContexts are the contexts in which the thorough tier explores depth 3 with ill-typed
 // calls too (accepted calls only elsewhere).
 var relevantContexts = []string{"api", "service", "method+http", "payload", "resulttype", "http-endpoint", "http-response", "grpc-endpoint"}
